@@ -181,7 +181,8 @@ func (pTypes *Types) MarshalYAML() (any, error) {
 	types := *pTypes
 	switch len(types) {
 	case 0:
-		return nil, nil
+		// an empty list of types is not the absence of "type": it admits no typed value
+		return []string{}, nil
 	case 1:
 		return types[0], nil
 	default:
